@@ -14,7 +14,5 @@ open Nitime.C18.Props
 #print axioms boxLowpass_length
 #print axioms highpass_stage_mean
 #print axioms boxcar_mean
-#print axioms boxcar_mean_partial
-#print axioms boxcar_mean_counterexample
 #print axioms axis_preserved
 #print axioms axis_comp_all
